@@ -63,6 +63,7 @@ type scenario struct {
 	bound    int
 	maxExec  int64
 	maxSteps int
+	faults   int // environment faults the explorer may inject (each costs one deviation)
 }
 
 type totals struct {
@@ -74,6 +75,7 @@ type totals struct {
 func runOnce(sc *scenario, r *explore.Run, trace bool) (*exec, vrt.Outcome) {
 	x := &exec{fails: map[string]string{}}
 	curExec = x
+	vrt.FaultBudget = sc.faults
 	ch := &chooser{r: r}
 	done := make(chan vrt.Outcome, 1)
 	go func() { done <- vrt.Run(ch, sc.maxSteps, 1, trace, func() { sc.body(x) }) }()
@@ -193,6 +195,7 @@ func (f *fixed) ChooseCost(n int, label string, cost []int) int {
 func replay(sc *scenario, choices []int) (*exec, vrt.Outcome) {
 	x := &exec{fails: map[string]string{}}
 	curExec = x
+	vrt.FaultBudget = sc.faults
 	out := vrt.Run(&fixed{choices: choices}, sc.maxSteps, 1, true, func() { sc.body(x) })
 	return x, out
 }
@@ -203,6 +206,7 @@ func run(c *vf.Ctx) {
 	B := c.Pick(3, 4)
 	all := append(nbnsScenarios(c, B), llmnrScenarios(c, B)...)
 	all = append(all, challengeScenarios(c, B)...)
+	all = append(all, faultScenarios(c, B)...)
 	if !vf.IsWorker() {
 		w := runtime.NumCPU()
 		if w > 16 {
